@@ -11,12 +11,17 @@ Vocabulary: `WF h` — links of the heap point forward, stay inside the heap and
 evaluates the Boolean form `wfb` on every heap it builds without `CloneWithPrefixMessage`; `wf_of_wfb`; `reachable_wf`
 proves it for every heap the API can build without `CloneWithPrefixMessage`);
 `argItems h v` — the non-nil, non-empty errors contained in the value `v`, aggregates flattened;
-`accOf acc args` / `restOf acc args` — the effective accumulator and the appended arguments (design Appendix B: a nil
-`err` makes the first non-nil argument the accumulator); `NoAlias h acc args` — no appended argument's chain ends in
-the accumulator's last cell (aliased calls such as `Append(a, b, a)` re-read the accumulator after it has grown; their
-content is given by `append_items_alias`). -/
+`NoAlias h acc args` — when the accumulator `err` is an `*Error`, no argument's chain ends in its last cell (`noAlias_iff`;
+aliased calls such as `Append(a, b, a)` re-read the accumulator after it has grown; their content is given by
+`append_items_alias`).  The accumulator is `err` and the appended arguments are ALL of `errs` (since fix f2f6175 a nil
+`err` starts from nothing and copies every argument). -/
 namespace C11
 open Errs
+
+/-- what `NoAlias` says -/
+theorem noAlias_iff (h : Heap) (acc : Val) (args : List Val) :
+    NoAlias h acc args ↔
+      ∀ id, acc = .ref id → ∀ id', Val.ref id' ∈ args → tailOf h (fuelOf h) id ∉ chain h (fuelOf h) id' := Iff.rfl
 
 /-- **Append loses nothing**: the result contains, in order, the non-nil non-empty errors of the accumulator followed
     by those of every argument, aggregates flattened (property clause 1, `Count`/`WrappedErrors` via `count_eq`,
@@ -37,11 +42,12 @@ theorem append_nil_iff (h : Heap) (acc : Val) (args : List Val) (hwf : WF h)
 theorem append_written (h : Heap) (acc : Val) (args : List Val) (hwf : WF h)
     (hids : ∀ id, Val.ref id ∈ acc :: args → id < h.size) (hna : NoAlias h acc args) :
     ∀ i ∈ (append h acc args).2.2,
-      (∃ id, accOf acc args = .ref id ∧ i = tailOf h (fuelOf h) id ∧ i ∈ chain h (fuelOf h) id) ∨ h.size ≤ i := by
+      (∃ id, acc = .ref id ∧ i = tailOf h (fuelOf h) id ∧ i ∈ chain h (fuelOf h) id) ∨ h.size ≤ i := by
   intro i hi
   rcases (append_spec args acc h hwf hids hna).written i hi with ⟨id, hacc, heq⟩ | hge
   · refine Or.inl ⟨id, hacc, heq, ?_⟩
-    have hlt : id < h.size := hids id (by rw [← hacc]; exact accOf_mem args acc)
+    have hacc' : acc = .ref id := hacc
+    have hlt : id < h.size := hids id (by rw [hacc']; simp)
     rw [heq]
     exact (hwf.chain_spec hlt).1.tail_mem
   · exact Or.inr hge
@@ -49,21 +55,22 @@ theorem append_written (h : Heap) (acc : Val) (args : List Val) (hwf : WF h)
 /-- … and no other pre-existing cell changes at all (frame) -/
 theorem append_frame (h : Heap) (acc : Val) (args : List Val) (hwf : WF h)
     (hids : ∀ id, Val.ref id ∈ acc :: args → id < h.size) (hna : NoAlias h acc args) (i : Nat) (hi : i < h.size)
-    (hne : ∀ id, accOf acc args = .ref id → i ≠ tailOf h (fuelOf h) id) :
+    (hne : ∀ id, acc = .ref id → i ≠ tailOf h (fuelOf h) id) :
     (append h acc args).1[i]? = h[i]? :=
   (append_spec args acc h hwf hids hna).frame i hi hne
 
-/-- **the appended arguments are left unchanged**: after the call every appended `*Error` argument has the same chain,
-    the same cells and the same content as before (clause "leaves the contents of the appended arguments unchanged") -/
+/-- **the appended arguments are left unchanged**: after the call EVERY `*Error` among `errs` — also the first one when
+    `err` is nil — has the same chain, the same cells and the same content as before (clause "leaves the contents of the
+    appended arguments unchanged") -/
 theorem append_args_unchanged (h : Heap) (acc : Val) (args : List Val) (hwf : WF h)
     (hids : ∀ id, Val.ref id ∈ acc :: args → id < h.size) (hna : NoAlias h acc args) :
-    ∀ id', Val.ref id' ∈ restOf acc args →
+    ∀ id', Val.ref id' ∈ args →
       chain (append h acc args).1 (fuelOf (append h acc args).1) id' = chain h (fuelOf h) id' ∧
       items (append h acc args).1 id' = items h id' ∧
       ∀ i ∈ chain h (fuelOf h) id', (append h acc args).1[i]? = h[i]? := by
   intro id' hid'
   exact append_frame_any h acc args hwf hids hna id'
-    (hids id' (List.mem_cons_of_mem _ (restOf_subset args acc _ hid'))) (fun id hacc => hna id hacc id' hid')
+    (hids id' (List.mem_cons_of_mem _ hid')) (fun id hacc => hna id hacc id' hid')
 
 /-- the heap invariant is preserved, so the theorems apply again to the next call -/
 theorem append_wf (h : Heap) (acc : Val) (args : List Val) (hwf : WF h)
@@ -221,8 +228,8 @@ theorem append_wf_any (h : Heap) (acc : Val) (args : List Val) (hwf : WF h)
     any order, with any aliasing) can build satisfies the invariant the `Append` theorems assume -/
 theorem reachable_wf (h : Heap) (r : Reachable h) : WF h := reachable_wf_aux r
 
-/-- **content of `Append` with any aliasing** (no `NoAlias`; accumulator a non-empty `*Error`, which is also what a nil
-    `err` reduces to once the first non-nil `*Error` argument is adopted): the result contains the accumulator's errors
+/-- **content of `Append` with any aliasing** (no `NoAlias`; accumulator a non-empty `*Error` — with any other accumulator
+    `NoAlias` holds trivially and `append_items` applies): the result contains the accumulator's errors
     followed by `aliasItems`, where an argument whose chain ends in the accumulator's last cell `e0` contributes its
     errors **plus everything appended so far** (it is read after the accumulator has grown: `Append(a, b, a)` contains
     `a, b, a, b`), and every other argument contributes exactly its own errors -/
@@ -340,10 +347,11 @@ theorem append_stacks (h : Heap) (T : Toks) (f c : Nat) (id : Nat) (args : List 
       chainToks h T id ++ argsToks h T f c args :=
   append_stacks_ref h T f c id args hwf hT hid hne hargs
 
-/-- … and of `Append` onto nothing (a nil `*Error`, a typed nil or an empty error as accumulator): exactly the stacks of
+/-- … and of `Append` onto nothing (a nil interface, a nil `*Error`, a typed nil or an empty error as accumulator): exactly the stacks of
     the arguments -/
 theorem append_stacks_fresh (h : Heap) (T : Toks) (f c : Nat) (acc : Val) (args : List Val) (hwf : WF h)
-    (hT : T.size = h.size) (hacc : acc = .typedNil ∨ acc = .foreignNil ∨ ∃ id, acc = .ref id ∧ isEmpty h id = true)
+    (hT : T.size = h.size)
+    (hacc : acc = .nilIface ∨ acc = .typedNil ∨ acc = .foreignNil ∨ ∃ id, acc = .ref id ∧ isEmpty h id = true)
     (hargs : ∀ id', Val.ref id' ∈ args → id' < h.size) :
     match (appendFx h T f c acc args).2.1 with
     | none => argsToks h T f c args = []
